@@ -3,7 +3,7 @@ import Enc.Lemmas.ThriftSkip
 Decoder round trip through `decode` for the scalar / byte-string / list fragment (any nesting of slices, pointers and
 named types), both protocols, strict or not, any current target value:
 
-  `decode_encode : RT ty v → fuelD ty v ≤ fuel → decode p strict fuel ty (encode p ty v ++ rest) cur = ok (v, rest)`
+  `decode_encode : RT ty v → fuelD ty v ≤ fuel → decode p strict d fuel ty (encode p ty v ++ rest) cur = ok (v, rest)`
 
 Not covered: maps/sets (the decoder de-duplicates keys through `mapPut`/`Val.show`), structs, nil values (a nil
 `[]byte`/slice/pointer is written as an empty/zero value and comes back as that, not as nil).
@@ -54,13 +54,16 @@ theorem fuelD_slice (t : Ty) (v : Val) : fuelD (.slice t) v =
        | _ => 2) := by
   cases v <;> rfl
 
-theorem decode_slice (p : Proto) (strict : Bool) (fuel : Nat) (et : Ty) (b : Bytes) (cur : Val) :
-    decode p strict (fuel + 1) (.slice et) b cur =
+theorem decode_slice (p : Proto) (strict : Bool) (d fuel : Nat) (et : Ty) (b : Bytes) (cur : Val) :
+    decode p strict d (fuel + 1) (.slice et) b cur =
       if isU8 et then (rBytes p b).bind fun (x, r) => .ok (.str x, r)
       else (rList p b).bind fun ((lt, n), r) =>
         let lt := if lt == .true_ then TType.bool else lt
-        if typeOf et != lt then (if strict then .err "typeMismatch" else .ok (cur, r))
-        else decodeList p strict fuel et n r [] := by
+        if typeOf et != lt then
+          (if strict then .err "typeMismatch"
+           else (skipN p (d + 1) fuel lt n r).bind fun (_, r) => .ok (cur, r))
+        else if tooDeep d then .err "maxDepth"
+        else decodeList p strict (d + 1) fuel et n r [] := by
   cases et with
   | int k => cases k <;> simp only [decode, isU8, if_true, if_false, Bool.false_eq_true]
   | _ => simp only [decode, isU8, if_false, Bool.false_eq_true]
@@ -69,11 +72,11 @@ theorem ofList_toList : (vs : Vals) → Vals.ofList vs.toList = vs
   | .nil => rfl
   | .cons v r => by simp [Vals.toList, Vals.ofList, ofList_toList r]
 
-theorem decodeList_elems (p : Proto) (strict : Bool) (et : Ty) (fu : Val → Nat) :
+theorem decodeList_elems (p : Proto) (strict : Bool) (d : Nat) (et : Ty) (fu : Val → Nat) :
     ∀ (l : List Val),
-      (∀ a ∈ l, ∀ fuel rest cur, fu a ≤ fuel → decode p strict fuel et (encode p et a ++ rest) cur = .ok (a, rest)) →
+      (∀ a ∈ l, ∀ fuel rest cur, fu a ≤ fuel → decode p strict d fuel et (encode p et a ++ rest) cur = .ok (a, rest)) →
       ∀ fuel rest acc, 1 + (l.map fun a => 1 + fu a).sum ≤ fuel →
-        decodeList p strict fuel et l.length ((l.map (encode p et)).flatten ++ rest) acc
+        decodeList p strict d fuel et l.length ((l.map (encode p et)).flatten ++ rest) acc
           = .ok (.list (Vals.ofList (acc.reverse ++ l)), rest) := by
   intro l
   induction l with
@@ -92,16 +95,16 @@ theorem decodeList_elems (p : Proto) (strict : Bool) (et : Ty) (fu : Val → Nat
     simp
 
 theorem decode_encode (p : Proto) (strict : Bool) : (ty : Ty) → (v : Val) → RT ty v = true →
-    ∀ (fuel : Nat) (rest : Bytes) (cur : Val), fuelD ty v ≤ fuel →
-      decode p strict fuel ty (encode p ty v ++ rest) cur = .ok (v, rest)
+    ∀ (d fuel : Nat) (rest : Bytes) (cur : Val), d + nest ty ≤ Gen.c_thrift_maxDepth → fuelD ty v ≤ fuel →
+      decode p strict d fuel ty (encode p ty v ++ rest) cur = .ok (v, rest)
   | .bool, v, h => by
-    intro fuel rest cur hf
+    intro d fuel rest cur hd hf
     cases v <;> simp [RT] at h
     simp only [fuelD] at hf
     obtain ⟨f, rfl⟩ : ∃ f, fuel = f + 1 := ⟨fuel - 1, by omega⟩
     simp only [decode, encode, rBool_wBool, Res.bind]
   | .int k, v, h => by
-    intro fuel rest cur hf
+    intro d fuel rest cur hd hf
     cases v <;> simp only [RT, Bool.false_eq_true] at h
     rename_i i
     simp only [fuelD] at hf
@@ -115,55 +118,60 @@ theorem decode_encode (p : Proto) (strict : Bool) : (ty : Ty) → (v : Val) → 
     · rw [rI32_wI32 p i ⟨by omega, by omega⟩]; rfl
     · rw [rI64_wI64 p i ⟨by omega, by omega⟩]; rfl
   | .f32, v, h | .f64, v, h => by
-    intro fuel rest cur hf
+    intro d fuel rest cur hd hf
     cases v <;> simp [RT] at h
     simp only [fuelD] at hf
     obtain ⟨f, rfl⟩ : ∃ f, fuel = f + 1 := ⟨fuel - 1, by omega⟩
     simp only [decode, encode, rDouble_wDouble p _ h, Res.bind]
   | .str, v, h | .bytes, v, h => by
-    intro fuel rest cur hf
+    intro d fuel rest cur hd hf
     cases v <;> simp [RT] at h
     simp only [fuelD] at hf
     obtain ⟨f, rfl⟩ : ∃ f, fuel = f + 1 := ⟨fuel - 1, by omega⟩
     simp only [decode, encode, rBytes_wBytes p _ h, Res.bind]
   | .slice t, v, h => by
-    intro fuel rest cur hf
+    intro d fuel rest cur hd hf
     rw [RT_slice] at h
     rw [fuelD_slice] at hf
+    rw [nest_slice] at hd
     obtain ⟨f, rfl⟩ : ∃ f, fuel = f + 1 := ⟨fuel - 1, by split at hf <;> (try split at hf) <;> omega⟩
     rw [decode_slice, encode_slice]
     by_cases hu : isU8 t = true
     · simp only [hu, if_true] at h hf ⊢
       cases v <;> simp at h
       simp only [rBytes_wBytes p _ h, Res.bind]
-    · simp only [hu, Bool.false_eq_true, if_false, Bool.and_eq_true] at h hf ⊢
+    · simp only [hu, Bool.false_eq_true, if_false, Bool.and_eq_true] at h hf hd ⊢
       obtain ⟨hreal, h⟩ := h
+      have htd : tooDeep d = false := tooDeep_false d (by omega)
       cases v <;> simp only [Bool.false_eq_true] at h
       rename_i vs
       simp only [Bool.and_eq_true, decide_eq_true_eq] at h hf ⊢
       obtain ⟨hlen, hall⟩ := h
       rw [List.append_assoc, rList_wList p _ _ hreal hlen]
       have hnt : (typeOf t == TType.true_) = false := by simpa using typeOf_ne_true t
-      simp only [Res.bind, hnt, Bool.false_eq_true, if_false, bne_self_eq_false]
+      simp only [Res.bind, hnt, Bool.false_eq_true, if_false, bne_self_eq_false, htd]
       rw [length_toList vs]
-      rw [decodeList_elems p strict t (fuelD t) vs.toList
-        (fun a ha fuel rest cur hfa => decode_encode p strict t a (all_toList _ _ hall a ha) fuel rest cur hfa)
+      rw [decodeList_elems p strict (d + 1) t (fuelD t) vs.toList
+        (fun a ha fuel rest cur hfa =>
+          decode_encode p strict t a (all_toList _ _ hall a ha) (d + 1) fuel rest cur (by omega) hfa)
         f rest [] (by omega)]
       simp [ofList_toList]
   | .ptr t, v, h => by
-    intro fuel rest cur hf
+    intro d fuel rest cur hd hf
     cases v <;> simp only [RT, Bool.false_eq_true] at h
     rename_i x
     simp only [fuelD] at hf
     obtain ⟨f, rfl⟩ : ∃ f, fuel = f + 1 := ⟨fuel - 1, by omega⟩
     simp only [encode]
-    cases cur <;> simp only [decode] <;> rw [decode_encode p strict t x h f rest _ (by omega)] <;> rfl
+    simp only [nest] at hd
+    cases cur <;> simp only [decode] <;> rw [decode_encode p strict t x h d f rest _ hd (by omega)] <;> rfl
   | .named _ t, v, h => by
-    intro fuel rest cur hf
+    intro d fuel rest cur hd hf
     simp only [RT, fuelD] at h hf
     obtain ⟨f, rfl⟩ : ∃ f, fuel = f + 1 := ⟨fuel - 1, by omega⟩
     simp only [decode, encode]
-    exact decode_encode p strict t v h f rest cur (by omega)
+    simp only [nest] at hd
+    exact decode_encode p strict t v h d f rest cur hd (by omega)
   | .map _ _, _, h | .struct _, _, h | .arr _ _, _, h | .any, _, h => by simp [RT] at h
 
 end Enc.Lemmas.ThriftSkip
